@@ -652,7 +652,9 @@ pub fn run_op<T: Elem + Clone + Ord>(ctx: &mut Ctx, oc: &OpCase<'_>) -> Outcome 
     ok &= check_tokens(ctx, opn, &parent, &HashSet::new());
     ok &= check_double_drops(ctx, opn);
     // ---- owned-twin differential
-    if ok && outcome == Outcome::Accepted {
+    // (unstable sorts are exempt: which of several tied lines ends up where is unspecified, so an owned
+    // array and a view may legitimately differ there; the permutation check above already judged them)
+    if ok && outcome == Outcome::Accepted && !unstable_sort {
         if let Some(tv) = twin_vals {
             let cells: Vec<T> = parent_window_cells_before::<T>(&wg0);
             let mut twin = TooDee::from_vec(wc, wr, cells);
